@@ -2,6 +2,8 @@
 // semantics: an operation that finds no ready counterpart registers as a waiter and parks; a later
 // counterpart completes the exchange directly. A non-blocking send therefore succeeds only if a
 // receiver has already parked on the channel (or buffer space exists).
+//
+// Race-mode discipline: see package vrt (//go:norace, no closures, no growth of shared slices).
 package vchan
 
 import (
@@ -15,7 +17,8 @@ type selState struct {
 	closedPanic bool
 }
 
-func (s *selState) ready() bool { return s.done }
+//go:norace
+func (s *selState) Enabled() bool { return s.done }
 
 type waiter[T any] struct {
 	sel *selState
@@ -24,30 +27,82 @@ type waiter[T any] struct {
 	val T // for senders
 }
 
+const maxQ = 32
+
+// queue is a fixed-capacity FIFO (no growth, no copy()).
+type queue[E any] struct {
+	a [maxQ]E
+	n int
+}
+
+//go:norace
+func (q *queue[E]) push(e E) {
+	if q.n >= maxQ {
+		panic("vchan: queue overflow")
+	}
+	q.a[q.n] = e
+	q.n++
+}
+
+//go:norace
+func (q *queue[E]) popFront() {
+	var zero E
+	for i := 0; i+1 < q.n; i++ {
+		q.a[i] = q.a[i+1]
+	}
+	q.n--
+	q.a[q.n] = zero
+}
+
+//go:norace
+func (q *queue[E]) removeAt(i int) {
+	var zero E
+	for j := i; j+1 < q.n; j++ {
+		q.a[j] = q.a[j+1]
+	}
+	q.n--
+	q.a[q.n] = zero
+}
+
+//go:norace
+func (q *queue[E]) clear() {
+	var zero E
+	for i := 0; i < q.n; i++ {
+		q.a[i] = zero
+	}
+	q.n = 0
+}
+
 // Chan is the model of chan T. A nil *Chan[T] behaves like a nil channel.
 type Chan[T any] struct {
 	capacity int
-	buf      []T
+	buf      queue[T]
 	closed   bool
-	recvq    []*waiter[T]
-	sendq    []*waiter[T]
+	recvq    queue[*waiter[T]]
+	sendq    queue[*waiter[T]]
 	ra       vrt.RaceAddr
 }
 
 // Make mirrors make(chan T, n).
+//
+//go:norace
 func Make[T any](n ...int) *Chan[T] {
 	c := &Chan[T]{}
 	if len(n) > 0 {
 		c.capacity = n[0]
+		if c.capacity > maxQ {
+			panic("vchan: buffer capacity above the model's maximum")
+		}
 	}
 	return c
 }
 
+//go:norace
 func (c *Chan[T]) liveRecv() *waiter[T] {
-	for len(c.recvq) > 0 {
-		w := c.recvq[0]
+	for c.recvq.n > 0 {
+		w := c.recvq.a[0]
 		if w.sel.done {
-			c.recvq = c.recvq[1:]
+			c.recvq.popFront()
 			continue
 		}
 		return w
@@ -55,11 +110,12 @@ func (c *Chan[T]) liveRecv() *waiter[T] {
 	return nil
 }
 
+//go:norace
 func (c *Chan[T]) liveSend() *waiter[T] {
-	for len(c.sendq) > 0 {
-		w := c.sendq[0]
+	for c.sendq.n > 0 {
+		w := c.sendq.a[0]
 		if w.sel.done {
-			c.sendq = c.sendq[1:]
+			c.sendq.popFront()
 			continue
 		}
 		return w
@@ -87,11 +143,20 @@ type RecvCase[T any] struct {
 }
 
 // R builds a receive arm.
+//
+//go:norace
 func R[T any](c *Chan[T]) *RecvCase[T] { return &RecvCase[T]{c: c} }
 
-func (r *RecvCase[T]) isNil() bool  { return r.c == nil }
+//go:norace
+func (r *RecvCase[T]) isNil() bool { return r.c == nil }
+
+//go:norace
 func (r *RecvCase[T]) isSend() bool { return false }
-func (r *RecvCase[T]) nRecv() int   { return 0 }
+
+//go:norace
+func (r *RecvCase[T]) nRecv() int { return 0 }
+
+//go:norace
 func (r *RecvCase[T]) obj() any {
 	if r.c == nil {
 		return nil
@@ -99,26 +164,28 @@ func (r *RecvCase[T]) obj() any {
 	return r.c
 }
 
+//go:norace
 func (r *RecvCase[T]) ready() bool {
 	c := r.c
-	return len(c.buf) > 0 || c.closed || c.liveSend() != nil
+	return c.buf.n > 0 || c.closed || c.liveSend() != nil
 }
 
+//go:norace
 func (r *RecvCase[T]) fire() {
 	c := r.c
-	if len(c.buf) > 0 {
-		r.V, r.OK = c.buf[0], true
-		c.buf = c.buf[1:]
+	if c.buf.n > 0 {
+		r.V, r.OK = c.buf.a[0], true
+		c.buf.popFront()
 		if w := c.liveSend(); w != nil { // a blocked sender moves into the freed slot
-			c.sendq = c.sendq[1:]
-			c.buf = append(c.buf, w.val)
+			c.sendq.popFront()
+			c.buf.push(w.val)
 			w.sel.done, w.sel.idx = true, w.idx
 		}
 		c.ra.Acquire()
 		return
 	}
 	if w := c.liveSend(); w != nil {
-		c.sendq = c.sendq[1:]
+		c.sendq.popFront()
 		r.V, r.OK = w.val, true
 		w.sel.done, w.sel.idx = true, w.idx
 		c.ra.Acquire()
@@ -130,18 +197,21 @@ func (r *RecvCase[T]) fire() {
 	c.ra.Acquire()
 }
 
+//go:norace
 func (r *RecvCase[T]) enqueue(sel *selState, idx int) {
-	r.c.recvq = append(r.c.recvq, &waiter[T]{sel: sel, idx: idx, rc: r})
+	r.c.recvq.push(&waiter[T]{sel: sel, idx: idx, rc: r})
 }
 
+//go:norace
 func (r *RecvCase[T]) dequeue(sel *selState) {
-	q := r.c.recvq[:0]
-	for _, w := range r.c.recvq {
-		if w.sel != sel {
-			q = append(q, w)
+	q := &r.c.recvq
+	for i := 0; i < q.n; {
+		if q.a[i].sel == sel {
+			q.removeAt(i)
+			continue
 		}
+		i++
 	}
-	r.c.recvq = q
 	if sel.done {
 		r.c.ra.Acquire()
 	}
@@ -154,16 +224,25 @@ type SendCase[T any] struct {
 }
 
 // S builds a send arm.
+//
+//go:norace
 func S[T any](c *Chan[T], v T) *SendCase[T] { return &SendCase[T]{c: c, v: v} }
 
-func (s *SendCase[T]) isNil() bool  { return s.c == nil }
+//go:norace
+func (s *SendCase[T]) isNil() bool { return s.c == nil }
+
+//go:norace
 func (s *SendCase[T]) isSend() bool { return true }
+
+//go:norace
 func (s *SendCase[T]) obj() any {
 	if s.c == nil {
 		return nil
 	}
 	return s.c
 }
+
+//go:norace
 func (s *SendCase[T]) nRecv() int {
 	if s.c == nil {
 		return 0
@@ -171,11 +250,13 @@ func (s *SendCase[T]) nRecv() int {
 	return s.c.Receivers()
 }
 
+//go:norace
 func (s *SendCase[T]) ready() bool {
 	c := s.c
-	return c.closed || c.liveRecv() != nil || len(c.buf) < c.capacity
+	return c.closed || c.liveRecv() != nil || c.buf.n < c.capacity
 }
 
+//go:norace
 func (s *SendCase[T]) fire() {
 	c := s.c
 	if c.closed {
@@ -183,30 +264,32 @@ func (s *SendCase[T]) fire() {
 	}
 	c.ra.Release()
 	if w := c.liveRecv(); w != nil {
-		c.recvq = c.recvq[1:]
+		c.recvq.popFront()
 		w.rc.V, w.rc.OK = s.v, true
 		w.sel.done, w.sel.idx = true, w.idx
 		return
 	}
-	c.buf = append(c.buf, s.v)
+	c.buf.push(s.v)
 }
 
+//go:norace
 func (s *SendCase[T]) enqueue(sel *selState, idx int) {
-	s.c.sendq = append(s.c.sendq, &waiter[T]{sel: sel, idx: idx, val: s.v})
+	s.c.sendq.push(&waiter[T]{sel: sel, idx: idx, val: s.v})
 }
 
+//go:norace
 func (s *SendCase[T]) dequeue(sel *selState) {
-	q := s.c.sendq[:0]
-	for _, w := range s.c.sendq {
-		if w.sel != sel {
-			q = append(q, w)
+	q := &s.c.sendq
+	for i := 0; i < q.n; {
+		if q.a[i].sel == sel {
+			q.removeAt(i)
+			continue
 		}
+		i++
 	}
-	s.c.sendq = q
 }
 
-// Select mirrors the select statement. It returns the index of the arm that fired, or -1 when
-// hasDefault is set and no arm was ready.
+//go:norace
 func objsOf(cases []Case) []any {
 	o := make([]any, 0, len(cases))
 	for _, c := range cases {
@@ -217,9 +300,13 @@ func objsOf(cases []Case) []any {
 	return o
 }
 
+// Select mirrors the select statement. It returns the index of the arm that fired, or -1 when
+// hasDefault is set and no arm was ready.
+//
+//go:norace
 func Select(hasDefault bool, cases ...Case) int {
 	vrt.Point("select", nil, objsOf(cases)...)
-	if hasDefault && len(cases) == 1 && cases[0].isSend() {
+	if hasDefault && len(cases) == 1 && cases[0].isSend() && vrt.EventsOn() {
 		// non-blocking send (hand-off idiom): log how many receivers were parked and the outcome
 		n := cases[0].nRecv()
 		k := selectNoPoint(hasDefault, cases)
@@ -229,16 +316,18 @@ func Select(hasDefault bool, cases ...Case) int {
 	return selectNoPoint(hasDefault, cases)
 }
 
+//go:norace
 func selectNoPoint(hasDefault bool, cases []Case) int {
-	var readyIdx [8]int
-	rd := readyIdx[:0]
+	var rd [16]int
+	nr := 0
 	for i, c := range cases {
-		if !c.isNil() && c.ready() {
-			rd = append(rd, i)
+		if !c.isNil() && c.ready() && nr < len(rd) {
+			rd[nr] = i
+			nr++
 		}
 	}
-	if len(rd) > 0 {
-		k := rd[vrt.ChooseSelect(len(rd))]
+	if nr > 0 {
+		k := rd[vrt.ChooseSelect(nr)]
 		cases[k].fire()
 		return k
 	}
@@ -251,7 +340,7 @@ func selectNoPoint(hasDefault bool, cases []Case) int {
 			c.enqueue(sel, i)
 		}
 	}
-	vrt.Point("chan.blocked", sel.ready, objsOf(cases)...)
+	vrt.Point("chan.blocked", sel, objsOf(cases)...)
 	for _, c := range cases {
 		if !c.isNil() {
 			c.dequeue(sel)
@@ -263,28 +352,7 @@ func selectNoPoint(hasDefault bool, cases []Case) int {
 	return sel.idx
 }
 
-// Send mirrors ch <- v.
-func (c *Chan[T]) Send(v T) {
-	vrt.Point("chan.send", nil, chanObj(c))
-	selectNoPoint(false, []Case{S(c, v)})
-}
-
-// Recv mirrors <-ch.
-func (c *Chan[T]) Recv() T {
-	vrt.Point("chan.recv", nil, chanObj(c))
-	r := R(c)
-	selectNoPoint(false, []Case{r})
-	return r.V
-}
-
-// Recv2 mirrors v, ok := <-ch.
-func (c *Chan[T]) Recv2() (T, bool) {
-	vrt.Point("chan.recv", nil, chanObj(c))
-	r := R(c)
-	selectNoPoint(false, []Case{r})
-	return r.V, r.OK
-}
-
+//go:norace
 func chanObj[T any](c *Chan[T]) any {
 	if c == nil {
 		return nil
@@ -292,7 +360,43 @@ func chanObj[T any](c *Chan[T]) any {
 	return c
 }
 
+// Send mirrors ch <- v.
+//
+//go:norace
+func (c *Chan[T]) Send(v T) {
+	vrt.Point("chan.send", nil, chanObj(c))
+	var cs [1]Case
+	cs[0] = S(c, v)
+	selectNoPoint(false, cs[:])
+}
+
+// Recv mirrors <-ch.
+//
+//go:norace
+func (c *Chan[T]) Recv() T {
+	vrt.Point("chan.recv", nil, chanObj(c))
+	r := R(c)
+	var cs [1]Case
+	cs[0] = r
+	selectNoPoint(false, cs[:])
+	return r.V
+}
+
+// Recv2 mirrors v, ok := <-ch.
+//
+//go:norace
+func (c *Chan[T]) Recv2() (T, bool) {
+	vrt.Point("chan.recv", nil, chanObj(c))
+	r := R(c)
+	var cs [1]Case
+	cs[0] = r
+	selectNoPoint(false, cs[:])
+	return r.V, r.OK
+}
+
 // TrySend is the controller-context non-blocking send used by timers (no schedule point).
+//
+//go:norace
 func (c *Chan[T]) TrySend(v T) bool {
 	s := S(c, v)
 	if c.closed || !s.ready() {
@@ -304,12 +408,16 @@ func (c *Chan[T]) TrySend(v T) bool {
 }
 
 // Close mirrors close(ch).
+//
+//go:norace
 func Close[T any](c *Chan[T]) {
 	vrt.Point("chan.close", nil, chanObj(c))
 	c.CloseNoPoint()
 }
 
 // CloseNoPoint closes without a schedule point (used by vctx cancellation, which has its own).
+//
+//go:norace
 func (c *Chan[T]) CloseNoPoint() {
 	if c == nil {
 		panic("close of nil channel")
@@ -320,34 +428,42 @@ func (c *Chan[T]) CloseNoPoint() {
 	c.closed = true
 	vrt.Touch(c)
 	c.ra.Release()
-	for _, w := range c.recvq {
+	for i := 0; i < c.recvq.n; i++ {
+		w := c.recvq.a[i]
 		if !w.sel.done {
 			var zero T
 			w.rc.V, w.rc.OK = zero, false
 			w.sel.done, w.sel.idx = true, w.idx
 		}
 	}
-	c.recvq = nil
-	for _, w := range c.sendq {
+	c.recvq.clear()
+	for i := 0; i < c.sendq.n; i++ {
+		w := c.sendq.a[i]
 		if !w.sel.done {
 			w.sel.done, w.sel.idx, w.sel.closedPanic = true, w.idx, true
 		}
 	}
-	c.sendq = nil
+	c.sendq.clear()
 }
 
 // Closed reports whether the channel is closed (oracles).
+//
+//go:norace
 func (c *Chan[T]) Closed() bool { return c != nil && c.closed }
 
 // Len mirrors len(ch).
+//
+//go:norace
 func (c *Chan[T]) Len() int {
 	if c == nil {
 		return 0
 	}
-	return len(c.buf)
+	return c.buf.n
 }
 
 // Cap mirrors cap(ch).
+//
+//go:norace
 func (c *Chan[T]) Cap() int {
 	if c == nil {
 		return 0
@@ -356,10 +472,12 @@ func (c *Chan[T]) Cap() int {
 }
 
 // Receivers returns the number of parked receivers (oracles / signatures).
+//
+//go:norace
 func (c *Chan[T]) Receivers() int {
 	n := 0
-	for _, w := range c.recvq {
-		if !w.sel.done {
+	for i := 0; i < c.recvq.n; i++ {
+		if !c.recvq.a[i].sel.done {
 			n++
 		}
 	}
